@@ -29,6 +29,17 @@ FAT = db.FAT_OFFSET
 DIR = db.DIR_OFFSET
 
 
+def untouched_instance(A, A0, base, q):
+    """instance q of add_file's frame towards the files already stored (bridge:existing-files-untouched): a byte in a granule that
+    was not free, in a directory entry other than the new one (at base) or in an allocation-table entry that was not free
+    is the same before (A0) and after (A)"""
+    gq, valid = gran_of(q)
+    other_gran = And(valid, sel(A0, FAT + gq) != 0xFF)
+    other_dir = And(q >= DIR, q < DIR + 72 * 32, Or(q < base, q >= base + 32))
+    other_fat = And(q >= FAT, q < FAT + 68, sel(A0, q) != 0xFF)
+    return Implies(Or(other_gran, other_dir, other_fat), sel(A, q) == sel(A0, q))
+
+
 class DiskAddFile:
     name = "disk_addfile"
     props = ("C08", "C15", "C07", "C13", "C16", "C09")
@@ -368,11 +379,7 @@ class DiskAddFile:
                          [f_.instance(sym.floordiv(j, GR)) for f_ in facts if f_.name == "alloc"])
 
             def untouched(q):
-                gq, valid = gran_of(q)
-                other_gran = And(valid, sel(A0, FAT + gq) != 0xFF)
-                other_dir = And(q >= DIR, q < DIR + 72 * 32, Or(q < base, q >= base + 32))
-                other_fat = And(q >= FAT, q < FAT + 68, sel(A0, q) != 0xFF)
-                return Implies(Or(other_gran, other_dir, other_fat), sel(A, q) == sel(A0, q))
+                return untouched_instance(A, A0, base, q)
             prove_forall(env, p, key + "::bridge:existing-files-untouched", Forall("frame", 0, N, untouched), facts, ("C07", "C08", "C09"),
                          extra_instances=lambda q: [q, sel(P, q - FAT), sel(P, gran_of(q)[0])],
                          hyps=lambda q: [f_.instance(sel(P, gran_of(q)[0])) for f_ in facts if f_.name == "alloc"] +
